@@ -7,7 +7,7 @@ from concurrent.futures import ThreadPoolExecutor
 
 ROOT = '/verif/seeded'
 EXTRA = {'C15': ['C09', 'C01'], 'C02': ['C10', 'C09', 'C11'], 'C03': ['C07', 'C06'], 'C10': ['C11', 'C06', 'C03'], 'C05': ['C01', 'C15'],
-         'C01': ['C15']}     # sibling checks worth trying when the own check is silent
+         'C01': ['C15'], 'C17': ['C16'], 'C20': ['C14', 'C10', 'C12', 'C11'], 'C18': ['C19'], 'C13': ['C11', 'C10'], 'C11': ['C13', 'C10']}     # sibling checks worth trying when the own check is silent
 
 
 def run(name):
@@ -28,12 +28,14 @@ def run(name):
             return name, 'patch does not apply to the current tree', []
         meta['applies_to_current_tree'] = True
         hits = []
+        crashed = []
         env = dict(os.environ, VERIF_REPO=repo, VERIF_SCRATCH_DIR=tmp)
         for p in [prop] + EXTRA.get(prop, []):
             out = subprocess.run([sys.executable, '-m', 'vf.cli', p, 'quick'], cwd='/verif', env=env, capture_output=True, text=True)
             keys = [l.split('key: ', 1)[1].strip() for l in out.stdout.splitlines() if 'key: ' in l]
             if out.returncode not in (0, 1):
-                hits.append({'check': p, 'findings': ['INFRASTRUCTURE FAILURE: ' + out.stdout[-300:]]})
+                sys.stderr.write(f'{name}: check {p} CRASHED (exit {out.returncode})\n{out.stdout[-600:]}\n{out.stderr[-1500:]}\n')
+                crashed.append(p)
             if out.returncode == 1:
                 hits.append({'check': p, 'findings': keys[:6]})
             if hits and p == prop:
@@ -42,7 +44,12 @@ def run(name):
         meta['detected_by'] = hits
         meta['check_findings'] = hits[0]['findings'] if hits else []
         json.dump(meta, open(os.path.join(d, 'meta.json'), 'w'), indent=1)
-        return name, 'detected by ' + ', '.join(h['check'] for h in hits) if hits else 'NOT DETECTED', hits
+        meta['check_crashed'] = crashed
+        json.dump(meta, open(os.path.join(d, 'meta.json'), 'w'), indent=1)
+        v = 'detected by ' + ', '.join(h['check'] for h in hits) if hits else 'NOT DETECTED'
+        if crashed:
+            v += '   [CRASHED: ' + ', '.join(crashed) + ']'
+        return name, v, hits
     finally:
         shutil.rmtree(tmp, ignore_errors=True)
 
